@@ -5,7 +5,8 @@ from props._semprop import simple
 from common import prove
 
 MODULE = 'Proofs.Props.C16'
-THEOREMS = ['Facto.C16_iteration_values', 'Facto.loop1_eq', 'Facto.loop2_eq', 'Facto.mem_iterUp', 'Facto.iterValues_nil_of_empty']
+THEOREMS = ['Facto.C16_iteration_values', 'Facto.loop1_eq', 'Facto.loop2_eq', 'Facto.mem_iterUp', 'Facto.iterValues_nil_of_empty',
+            'Facto.checkAll_sound', 'Facto.scalar_end_to_end', 'Facto.enable_end_to_end']
 
 
 def run(res, tier):
